@@ -8,10 +8,10 @@ from harness.common import lean_obligations
 from harness.search_deriv import derivative_search
 from harness.points import displacement, canon
 
-MODULE = 'Ndt.Props.C02'
+MODULE = 'Ndt.Props.C02Honest'
 THEOREMS = ['Ndt.info_consistent', 'Ndt.bestEstimate_err_nonneg', 'Ndt.wynnTable_err_nonneg', 'Ndt.tailStage_err_nonneg',
             'Ndt.final_step_is_generated_step', 'Ndt.richErrGo_ge_diff', 'Ndt.richErr_dominates_geometric',
-            'Ndt.chosenRow_valid', 'Ndt.bestEstimate_columnwise', 'Ndt.dea3_abserr_ge', 'Ndt.richErrMain_nonneg']
+            'Ndt.chosenRow_valid', 'Ndt.bestEstimate_columnwise', 'Ndt.dea3_abserr_ge', 'Ndt.richErrMain_nonneg', 'Ndt.tailStage_honest_geometric']
 
 
 def run(ctx):
